@@ -309,7 +309,7 @@ func workMain(args []string) int {
 			dec = x.Explored.Decisions()
 		}
 		before := len(dec)
-		mp, md, mv, tries := Minimise(prop, params, dec, v, *tier, race, 400)
+		mp, md, mv, tries := Minimise(prop, params, dec, v, *tier, race, 400, x.IsKnown)
 		if mv == nil {
 			// does not even reproduce in-process: infrastructure trouble
 			fmt.Fprintf(os.Stderr, "NOT-REPRODUCIBLE in-process: %s (run_seed=%d)\n", v.String(), runSeed)
@@ -409,6 +409,9 @@ func replayMain(args []string) int {
 		return 2
 	}
 	x := &X{Tier: rf.Tier, Race: vsim.RaceEnabled, Stats: NewStats(), Quiet: true}
+	kn := loadKnown(rf.Property)
+	x.IsKnown = func(sig string) bool { return matchKnown(kn, sig) != nil }
+	x.NoteKnown = func(string, string) {}
 	if rf.Strict {
 		x.ReplayDecisions = unpackDecisions(rf.Decisions)
 		x.ReplayMode = 2
